@@ -84,7 +84,7 @@ impl<'a> DeclVisitor for Vis<'a> {
         }
     }
 
-    fn pair<W: V, R: V>(&mut self, hist: &str, w: usize, r: usize, lacks_chunk0: bool) {
+    fn pair<W: V, R: V>(&mut self, hist: &str, w: usize, r: usize, lacks_chunk0: bool, pinned: Vec<W>) {
         if self.mode != "hist" {
             return;
         }
@@ -93,8 +93,14 @@ impl<'a> DeclVisitor for Vis<'a> {
         self.c.stat(&format!("pair:w{}r{}", w.min(3), r.min(3)));
         // stored version 0 carries no sizes: a reader that dropped a chunk-0 field cannot skip it (DESIGN 9.1)
         let framed = w >= 1 || !lacks_chunk0;
-        for i in 0..self.values {
-            let v = W::gen(&mut rng, 1 + (i % 3) as u32);
+        // hand-picked values of the history first (they make the known finding D17 appear on every run), then random ones
+        let mut pinned = pinned;
+        pinned.reverse();
+        for i in 0..(self.values + pinned.len()) {
+            let v = match pinned.pop() {
+                Some(p) => p,
+                None => W::gen(&mut rng, 1 + (i % 3) as u32),
+            };
             let bytes = match impl_encode(&v) {
                 Out::Ok(b) => b,
                 _ => continue,
@@ -115,7 +121,7 @@ impl<'a> DeclVisitor for Vis<'a> {
                     req: format!("hist {} {} {}", wn, rn, vtext),
                     check: Box::new(move |resp, c| {
                         let parts: Vec<&str> = resp.split(" ## ").collect();
-                        if parts.len() != 3 {
+                        if parts.len() != 4 {
                             c.fail("harness", "corr", "hist|bad-response", org, resp.to_string());
                             return;
                         }
@@ -130,8 +136,23 @@ impl<'a> DeclVisitor for Vis<'a> {
                             }
                         };
                         let expected = canon_of(parts[0]);
+                        // the operational model's outcome (enc with the writer's, dec with the reader's declaration)
+                        let op_text = parts[1].split(" abs=").next().unwrap_or("");
+                        let operational = canon_of(op_text);
+                        // is this (writer, reader) pair inside the hypothesis of C03.evolution_outcome?
+                        let class = parts[3];
+                        if class == "aligned" {
+                            c.stat("cases-of-aligned-pairs");
+                        } else {
+                            c.stat("cases-of-unaligned-pairs");
+                            c.stat(&format!("unaligned-pair:{}>{}:{}", wn, rn, class));
+                        }
                         if expected == impl_out {
                             c.stat("table-agree");
+                        } else if class == "not-aligned:passed-over-dedup-string" && operational == impl_out {
+                            // finding D17: the reader passes over a field that may hold the first occurrence of a deduplicated
+                            // string; implementation and operational model agree with each other, not with the documented outcome
+                            c.fail("table", "corr", "passed-over-dedup-string|table", format!("type={} origin={}", rn, org), format!("implementation {} documented outcome {}", impl_out, expected));
                         } else {
                             c.fail("table", "corr", &format!("{}>{}|table", wn, rn), format!("type={} origin={}", rn, org), format!("implementation {} documented outcome {}", impl_out, expected));
                         }
